@@ -22,9 +22,16 @@ structure Good (s : St) (t t' : Thread) : Prop where
   ss : ∀ e, t'.st = .sSend e → ∃ i it, curItem s t = some (i, it) ∧ t.st = .sLoad ∧ e = it.err
   td : ∀ i ∈ t'.todo, i ∈ t.todo
   ne : (needsItem t.st → t.todo ≠ []) → needsItem t'.st → t'.todo ≠ []
+  si : t'.st = .sInc → t.out = .ok
 
 theorem good_advance (s : St) (t : Thread) : Good s t t.advance := by
-  refine ⟨(advance_id t).1, (advance_id t).2, ?_, ?_, ?_, ?_, ?_, ?_⟩
+  refine ⟨(advance_id t).1, (advance_id t).2, ?_, ?_, ?_, ?_, ?_, ?_, ?_⟩
+  case refine_7 =>
+    intro hs
+    rcases advance_st t with h | h | h
+    · rw [h.1] at hs; simp at hs
+    · exact h.2.1
+    · rw [h.1] at hs; simp at hs
   case refine_6 =>
     intro _ hn
     rcases advance_st t with h | h | h
@@ -41,7 +48,13 @@ theorem good_advance (s : St) (t : Thread) : Good s t t.advance := by
     rcases advance_st t with ⟨h, ho⟩ | ⟨h, ho, _⟩ | ⟨h, ho, _⟩ <;> rw [h] <;> simp [errStage, ho]
 
 theorem good_enter (s : St) (t : Thread) : Good s t t.enter := by
-  refine ⟨(enter_id t).1, (enter_id t).2, ?_, ?_, ?_, ?_, ?_, ?_⟩
+  refine ⟨(enter_id t).1, (enter_id t).2, ?_, ?_, ?_, ?_, ?_, ?_, ?_⟩
+  case refine_7 =>
+    intro hs
+    rcases enter_st t with h | h | h
+    · rw [h.1] at hs; simp at hs
+    · exact h.2.1
+    · rw [h.1] at hs; simp at hs
   case refine_6 =>
     intro _ hn
     rcases enter_st t with h | h | h
@@ -68,25 +81,25 @@ theorem step_thread {s s' : St} (h : StepR s s') :
   | tick k t s' hk hT =>
     right
     cases hT with
-    | wgDone hst => exact ⟨k, t, _, hk, rfl, .inl ⟨rfl, rfl, by simp, by simp, by simp [errStage], by simp, fun _ h => h, fun h hn => by first | (refine h ?_; simp [needsItem, hst]; done) | (exfalso; revert hn; simp [needsItem]; done)⟩⟩
+    | wgDone hst => exact ⟨k, t, _, hk, rfl, .inl ⟨rfl, rfl, by simp, by simp, by simp [errStage], by simp, fun _ h => h, fun h hn => by first | (refine h ?_; simp [needsItem, hst]; done) | (exfalso; revert hn; simp [needsItem]; done), by simp⟩⟩
     | eSend hst hc | sSend e hst hc | sDone hst hd => exact ⟨k, t, _, hk, rfl, .inl (good_advance s t)⟩
     | eFailInc hst =>
-      exact ⟨k, t, _, hk, rfl, .inl (good_ite _ _ _ _ _ ⟨rfl, rfl, by simp, by simp, by simp [errStage, hst], by simp, fun _ h => h, fun h hn => by first | (refine h ?_; simp [needsItem, hst]; done) | (exfalso; revert hn; simp [needsItem]; done)⟩ (good_advance s t))⟩
+      exact ⟨k, t, _, hk, rfl, .inl (good_ite _ _ _ _ _ ⟨rfl, rfl, by simp, by simp, by simp [errStage, hst], by simp, fun _ h => h, fun h hn => by first | (refine h ?_; simp [needsItem, hst]; done) | (exfalso; revert hn; simp [needsItem]; done), by simp⟩ (good_advance s t))⟩
     | sFailInc hst | sPend hst =>
-      exact ⟨k, t, _, hk, rfl, .inl (good_ite _ _ _ _ _ ⟨rfl, rfl, by simp, by simp, by simp [errStage], by simp, fun _ h => h, fun h hn => by first | (refine h ?_; simp [needsItem, hst]; done) | (exfalso; revert hn; simp [needsItem]; done)⟩ (good_advance s t))⟩
-    | eStore hst i it hc => exact ⟨k, t, _, hk, rfl, .inl ⟨rfl, rfl, by simp, by simp, by simp [errStage, hst], by simp, fun _ h => h, fun h hn => by first | (refine h ?_; simp [needsItem, hst]; done) | (exfalso; revert hn; simp [needsItem]; done)⟩⟩
+      exact ⟨k, t, _, hk, rfl, .inl (good_ite _ _ _ _ _ ⟨rfl, rfl, by simp, by simp, by simp [errStage], by simp, fun _ h => h, fun h hn => by first | (refine h ?_; simp [needsItem, hst]; done) | (exfalso; revert hn; simp [needsItem]; done), by simp⟩ (good_advance s t))⟩
+    | eStore hst i it hc => exact ⟨k, t, _, hk, rfl, .inl ⟨rfl, rfl, by simp, by simp, by simp [errStage, hst], by simp, fun _ h => h, fun h hn => by first | (refine h ?_; simp [needsItem, hst]; done) | (exfalso; revert hn; simp [needsItem]; done), by simp⟩⟩
     | eIncC hst ho i it hc | eIncS hst ho i it hc =>
-      exact ⟨k, t, _, hk, rfl, .inl (good_ite _ _ _ _ _ ⟨rfl, rfl, by simp, by simp, by simp [errStage, hst], by simp, fun _ h => h, fun h hn => by first | (refine h ?_; simp [needsItem, hst]; done) | (exfalso; revert hn; simp [needsItem]; done)⟩
-        ⟨rfl, rfl, by simp, by simp, by simp [errStage, hst], by simp, fun _ h => h, fun h hn => by first | (refine h ?_; simp [needsItem, hst]; done) | (exfalso; revert hn; simp [needsItem]; done)⟩)⟩
+      exact ⟨k, t, _, hk, rfl, .inl (good_ite _ _ _ _ _ ⟨rfl, rfl, by simp, by simp, by simp [errStage, hst], by simp, fun _ h => h, fun h hn => by first | (refine h ?_; simp [needsItem, hst]; done) | (exfalso; revert hn; simp [needsItem]; done), by simp⟩
+        ⟨rfl, rfl, by simp, by simp, by simp [errStage, hst], by simp, fun _ h => h, fun h hn => by first | (refine h ?_; simp [needsItem, hst]; done) | (exfalso; revert hn; simp [needsItem]; done), by simp⟩)⟩
     | eDec hst i it hc =>
-      exact ⟨k, t, _, hk, rfl, .inl (good_ite _ _ _ _ _ ⟨rfl, rfl, by simp, by simp, by simp [errStage, hst], by simp, fun _ h => h, fun h hn => by first | (refine h ?_; simp [needsItem, hst]; done) | (exfalso; revert hn; simp [needsItem]; done)⟩ (good_advance s t))⟩
+      exact ⟨k, t, _, hk, rfl, .inl (good_ite _ _ _ _ _ ⟨rfl, rfl, by simp, by simp, by simp [errStage, hst], by simp, fun _ h => h, fun h hn => by first | (refine h ?_; simp [needsItem, hst]; done) | (exfalso; revert hn; simp [needsItem]; done), by simp⟩ (good_advance s t))⟩
     | sInc hst i it hc =>
-      exact ⟨k, t, _, hk, rfl, .inl (good_ite _ _ _ _ _ ⟨rfl, rfl, by simp, by simp, by simp [errStage], by simp, fun _ h => h, fun h hn => by first | (refine h ?_; simp [needsItem, hst]; done) | (exfalso; revert hn; simp [needsItem]; done)⟩
-        (good_ite _ _ _ _ _ ⟨rfl, rfl, by simp, by simp, by simp [errStage], by simp, fun _ h => h, fun h hn => by first | (refine h ?_; simp [needsItem, hst]; done) | (exfalso; revert hn; simp [needsItem]; done)⟩ (good_advance s t)))⟩
+      exact ⟨k, t, _, hk, rfl, .inl (good_ite _ _ _ _ _ ⟨rfl, rfl, by simp, by simp, by simp [errStage], by simp, fun _ h => h, fun h hn => by first | (refine h ?_; simp [needsItem, hst]; done) | (exfalso; revert hn; simp [needsItem]; done), by simp⟩
+        (good_ite _ _ _ _ _ ⟨rfl, rfl, by simp, by simp, by simp [errStage], by simp, fun _ h => h, fun h hn => by first | (refine h ?_; simp [needsItem, hst]; done) | (exfalso; revert hn; simp [needsItem]; done), by simp⟩ (good_advance s t)))⟩
     | sDec hst i it hc =>
-      exact ⟨k, t, _, hk, rfl, .inl (good_ite _ _ _ _ _ ⟨rfl, rfl, by simp, by simp, by simp [errStage], by simp, fun _ h => h, fun h hn => by first | (refine h ?_; simp [needsItem, hst]; done) | (exfalso; revert hn; simp [needsItem]; done)⟩ (good_advance s t))⟩
+      exact ⟨k, t, _, hk, rfl, .inl (good_ite _ _ _ _ _ ⟨rfl, rfl, by simp, by simp, by simp [errStage], by simp, fun _ h => h, fun h hn => by first | (refine h ?_; simp [needsItem, hst]; done) | (exfalso; revert hn; simp [needsItem]; done), by simp⟩ (good_advance s t))⟩
     | sLoad hst i it hc =>
-      exact ⟨k, t, _, hk, rfl, .inl ⟨rfl, rfl, by simp, by simp, by simp [errStage], fun e he => ⟨i, it, hc, hst, by simpa using he.symm⟩, fun _ h => h, fun h hn => by first | (refine h ?_; simp [needsItem, hst]; done) | (exfalso; revert hn; simp [needsItem]; done)⟩⟩
+      exact ⟨k, t, _, hk, rfl, .inl ⟨rfl, rfl, by simp, by simp, by simp [errStage], fun e he => ⟨i, it, hc, hst, by simpa using he.symm⟩, fun _ h => h, fun h hn => by first | (refine h ?_; simp [needsItem, hst]; done) | (exfalso; revert hn; simp [needsItem]; done), by simp⟩⟩
   | start k t hk hs => exact .inr ⟨k, t, _, hk, rfl, .inr ⟨hs, rfl⟩⟩
   | ret k t hk hs => exact .inr ⟨k, t, _, hk, rfl, .inl (good_enter s t)⟩
   | cleanup hw hc | cancel | recvDone hr hd | recvErr e hr he | recvCtx hr hc => exact .inl rfl
